@@ -9,7 +9,7 @@ CLAIMS = {
  "C20": ("bounded symbolic execution (symx over z3) of the real utils.mult_matrix/apply_matrix_*/translate_matrix and utils.Plane",
          "For all real-valued matrices, points and rectangles the affine laws hold (one z3 query each, unsat of the negation); apply_matrix_rect is the tight "
          "hull on all 121 paths, also for translations up to 2^40 (far beyond the library's INF sentinel); for every add/remove/find/iterate sequence within the bound and ALL real box/query coordinates in the stated window "
-         "the real Plane agrees with a brute-force list model, incl. insertion order under re-insertion (every add/remove sequence of 5 operations). Bounded model checking of the real code: holds for every value inside the bounds, nothing is claimed outside.",
+         "the real Plane agrees with a brute-force list model, incl. insertion order under re-insertion (every add/remove sequence of 5 operations) and bulk insertion through extend() with lists, tuples, generators, iterators and maps. Bounded model checking of the real code: holds for every value inside the bounds, nothing is claimed outside.",
          "4.C20"),
 }
 CLAIMS.update({
@@ -30,7 +30,7 @@ CLAIMS.update({
 CLAIMS["C04"] = ("bounded symbolic execution (symx) of the real PDFPage.get_pages / create_pages / __init__ and PDFPageInterpreter.process_page + begin_page",
          "For every page_numbers container (None, list, set of up to 3 symbolic ints) and every symbolic maxpages the pages returned are exactly the selected ones below the limit; for every "
          "tree of up to 3 (thorough 4) nodes with symbolic Kids (repeats, cycles), Type and placement (absent/direct/indirect, incl. falsy values) of each inheritable attribute the pages equal a "
-         "pre-order DFS with nearest-ancestor inheritance; Rotate is normalised for every int; for every real MediaBox and Rotate=90k+360t the page CTM is the clockwise rotation onto (0,0,W,H).",
+         "pre-order DFS with nearest-ancestor inheritance; Rotate is normalised for every int; for every real MediaBox (with or without a CropBox inside it) and Rotate=90k+360t the page CTM is the clockwise rotation onto (0,0,W,H) and LTPage.bbox is that box; generated documents whose page tree is a chain of 1..120 nested nodes with 2 or 4 pages each give every page, in document order, with the nearest ancestor's box and rotation, also under page_numbers.",
          "4.C04")
 CLAIMS["C05"] = ("bounded symbolic execution (symx, real arithmetic) of the real PDFPageInterpreter.do_* text/graphics-state operators, PDFTextDevice.render_string*, render_char and LTChar against a reference interpreter of ISO 32000-1 9.3-9.4",
          "For every program BT Tf + K operators chosen symbolically from 22 (K=2 quick, 3 thorough) + Tj with ALL operands, font size and glyph widths symbolic reals, each glyph's matrix, advance, "
@@ -60,7 +60,7 @@ CLAIMS["C09"] = ("bounded symbolic execution (symx, real arithmetic) of the real
 CLAIMS["C02"] = ("bounded symbolic execution (symx) of the real PDFXRefStream.get_pos/get_objids, PDFDocument.getobj/_getobj_objstm/read_xref_from/find_xref and PDFXRef.load",
          "For all /Index ranges (symbolic starts), field widths, ALL entry bytes and every object number the cross-reference stream decoding equals ISO 7.5.8; for every revision table (each object absent/direct/"
          "in an object stream, per revision) getobj returns the newest definition with caching on or off; for every Prev/XRefStm pointer graph (incl. cycles) sections load newest -> XRefStm -> Prev, each once; "
-         "classic tables and startxref are read for every subsection partition, EOL form and buffer size (enumeration harnesses); a single-revision classic-table file whose startxref offset or table is unreadable (17 damages x 3 line-end styles x caching) is recovered by the body scan: every object, the catalog, the in-use numbers and the text. Tables that are readable but point to wrong offsets are not recovered by the library and not claimed.",
+         "classic tables and startxref are read for every subsection partition, EOL form and buffer size (enumeration harnesses); a single-revision classic-table file whose startxref offset or table is unreadable (17 damages x 3 line-end styles x object bodies on their own line or on the obj line x caching) is recovered by the body scan: every object, the catalog, the in-use numbers and the text. Tables that are readable but point to wrong offsets are not recovered by the library and not claimed.",
          "4.C02")
 CLAIMS["C17"] = ("bounded symbolic execution (symx) of the real NumberTree, PageLabels.labels, format_int_roman/alpha, lookup_name/get_dest, get_outlines and decode_text",
          "Number trees with symbolic keys flatten sorted; format_int_roman equals the reference for every symbolic value 1..3999 (digits discovered by forking); page labels for every range/style/St/prefix "
@@ -70,7 +70,7 @@ CLAIMS["C17"] = ("bounded symbolic execution (symx) of the real NumberTree, Page
 CLAIMS["C18"] = ("bounded symbolic execution (symx, symbolic bytes) of the real ImageWriter.export_image/_save_bmp/BMPWriter and PDFContentParser inline-image scanning",
          "For each listed geometry (1/8/24 bits, widths 1..9, heights 1..3) and ALL sample bytes the exported BMP, decoded by a reference BMP reader, gives back exactly the stored samples, with a file length "
          "matching its header; export_image chooses a writer without exception for every listed filter list / colour space / bit depth and writes JPEG data unchanged; for ALL inline image data of up to 4 symbolic "
-         "bytes not containing the end marker the data is captured completely and the following operators are read as without the image, also when the image sits in a later stream of a Contents array (5 layouts of earlier streams); every sequence of up to 3 (thorough 4) images over four names and two formats exported into one real directory gives as many files as images, distinct names, each file holding its own samples.",
+         "bytes not containing the end marker the data is captured completely and the following operators are read as without the image, also when the image sits in a later stream of a Contents array (5 layouts of earlier streams); RGB / gray / 1-bit images stored through 14 real filter chains (Flate, LZW, RunLength, ASCIIHex, ASCII85, PNG predictors 10/12/15, TIFF predictor) give back their samples from LTImage.stream.get_data() and in the exported BMP; every sequence of up to 3 (thorough 4) images over four names and two formats exported into one real directory gives as many files as images, distinct names, each file holding its own samples.",
          "4.C18")
 CLAIMS["C15"] = ("symbolic execution of the real CMapDB._load_data and ImageWriter._create_unique_image_name: CrossHair (symbolic str over all of Unicode, budgeted) plus symx (every name over an 8-letter hostile alphabet, exhaustive)",
          "With the filesystem replaced by a recording stub whose exists() answers are symbolic, every path that a CMap name makes the library probe or open lies directly inside one of the two character-map "
